@@ -33,7 +33,7 @@ from itertools import permutations
 from ref import dfa as RD
 from ref import families as RF
 from ref import patterns as RP
-from sim import core, simfs
+from sim import core, histsim, simfs
 
 from . import common
 
@@ -132,7 +132,7 @@ def prepare(tier):
         res = {}
         for n in range(maxlen + 1):
             for p in permutations(range(n)):
-                d = real(pm.Perm(p))
+                d = _canonical_dfa(real(pm.Perm(p)))
                 res[p] = (set(d.states), set(d.input_symbols), {q: dict(t) for q, t in d.transitions.items()},
                           d.initial_state, set(d.final_states), bool(getattr(d, "allow_partial", False)))
         return res
@@ -150,11 +150,13 @@ def prepare(tier):
         memo[p] = DFA(states=states, input_symbols=symbols, transitions=trans, initial_state=init,
                       final_states=finals, allow_partial=partial)
     _STATE["real_make_dfa"] = real
+    # what the library keeps process-wide, while it is still as a fresh process has it
+    _STATE["pristine"] = histsim.snapshot_process_state(histsim.permuta_modules())
 
     def memo_make(cls, perm):  # pylint: disable=unused-argument
         key = tuple(perm)
         if key not in memo:
-            memo[key] = real(perm)
+            memo[key] = _canonical_dfa(real(perm))
         return memo[key]
 
     _STATE["orig"]["make_dfa_for_perm"] = pin.__dict__.get("make_dfa_for_perm")
@@ -163,13 +165,50 @@ def prepare(tier):
     _STATE["prepared"] = True
 
 
+def _canonical_dfa(d):
+    """The same automaton with its states renumbered in breadth-first order from the initial
+    state (symbols in sorted order).  automata-lib numbers the states of a determinised /
+    minimised automaton in an order that changes from process to process (sets of objects
+    hashed by address), so the text the library stores for an automaton - its length, where a
+    torn write cuts it - would otherwise not be a function of the case.  Language, type and
+    everything the library does while computing it are untouched."""
+    try:
+        from automata.fa.dfa import DFA  # pylint: disable=import-outside-toplevel
+
+        if not isinstance(d, DFA):
+            return d
+        symbols = sorted(d.input_symbols)
+        order = {d.initial_state: 0}
+        queue = [d.initial_state]
+        while queue:
+            q = queue.pop(0)
+            for a in symbols:
+                t = d.transitions.get(q, {}).get(a)
+                if t is not None and t not in order:
+                    order[t] = len(order)
+                    queue.append(t)
+        trans = {}
+        for q, i in sorted(order.items(), key=lambda kv: kv[1]):
+            trans[i] = {a: order[d.transitions[q][a]] for a in symbols if a in d.transitions.get(q, {})}
+        return DFA(states=set(range(len(order))), input_symbols=set(d.input_symbols), transitions=trans,
+                   initial_state=0, final_states={order[q] for q in d.final_states if q in order},
+                   allow_partial=bool(getattr(d, "allow_partial", False)) or any(len(t) < len(symbols) for t in trans.values()))
+    except Exception:  # pylint: disable=broad-except
+        return d
+
+
 def _use_real_make_dfa(flag):
     """Most histories answer make_dfa_for_perm from the table (speed); some run the real
     function, so that what it does to process-wide tables is part of the simulation."""
     _mb, mp = _modules()
     pin = mp.PinWords
     if flag and _STATE["orig"].get("make_dfa_for_perm") is not None:
-        pin.make_dfa_for_perm = _STATE["orig"]["make_dfa_for_perm"]
+        orig = _STATE["orig"]["make_dfa_for_perm"]
+
+        def real_canonical(cls, perm):
+            return _canonical_dfa(orig.__get__(None, cls)(perm))
+
+        pin.make_dfa_for_perm = classmethod(real_canonical)
     else:
         pin.make_dfa_for_perm = _STATE["stub"]
 
@@ -375,7 +414,8 @@ def gen_ops(rng, tier):
         elif r < 0.84:
             k = rng.choice([1, 2, 2, 3])
             ops.append({"op": "from_db", "basis": [rng.choice(perms) for _ in range(k)],
-                        "cont": rng.choice(["list", "list", "tuple", "set", "gen", "iter", "map"])})
+                        "cont": rng.choice(["list", "list", "tuple", "set", "gen", "iter", "map"]),
+                        "via": rng.choice(["direct", "direct", "wrapper"])})
         elif r < 0.87:
             ops.append({"op": "create_db", "n": rng.choice([0, 1, 2, 2, 3][: 2 + maxdfa])})
         elif r < 0.93:
@@ -539,6 +579,13 @@ class _RealFS:
         shutil.rmtree(self.root, ignore_errors=True)
 
 
+def _from_db(pin, arg, via):
+    """The union automaton out of the database, directly or through the public wrapper."""
+    if via == "wrapper":
+        return pin.make_dfa_for_basis(arg, use_db=True)
+    return pin.make_dfa_for_basis_from_db(arg)
+
+
 def _basis_arg(perms, cont):
     if cont == "tuple":
         return tuple(perms)
@@ -608,7 +655,7 @@ def _library_call(mb, pin, pm, op, fresh):
     if kind == "load":
         return ["v", pin.load_dfa_for_perm(pm.Perm(op["perm"]))]
     if kind == "from_db":
-        return ["v", pin.make_dfa_for_basis_from_db(_basis_arg([pm.Perm(p) for p in op["basis"]], op.get("cont", "list")))]
+        return ["v", _from_db(pin, _basis_arg([pm.Perm(p) for p in op["basis"]], op.get("cont", "list")), op.get("via"))]
     if kind == "create_db":
         pin.create_dfa_db_for_length(op["n"])
         return ["v", None]
@@ -641,6 +688,9 @@ def _execute_history(case):
     _use_real_make_dfa(bool(case.get("real_dfa")))
     if case.get("real_dfa"):
         out.probe("real_make_dfa")
+        # every such history starts where a fresh process would (first use of every lazily
+        # filled table included), whatever earlier histories of this process did
+        histsim.restore_process_state(_STATE.get("pristine", []))
     # model: abs path -> {"ack": dataset|None, "maybe": [datasets], "history": [datasets], "clean": bool}
     files = {}
     dfas = {}  # abs path of the automaton file -> "ok" | "maybe"
@@ -699,7 +749,6 @@ def _execute_history(case):
                         # the call is interrupted at a seeded executed line of library code
                         # (Ctrl-C, a signal ...): the process lives on, with whatever the call had
                         # done to files and to process-wide tables
-                        from sim import histsim  # pylint: disable=import-outside-toplevel
 
                         sub = dict(op)
                         del sub["interrupt"]
@@ -735,7 +784,7 @@ def _execute_history(case):
                     elif kind == "load":
                         result = ["v", pin.load_dfa_for_perm(pm.Perm(op["perm"]))]
                     elif kind == "from_db":
-                        result = ["v", pin.make_dfa_for_basis_from_db(_basis_arg([pm.Perm(p) for p in op["basis"]], op.get("cont", "list")))]
+                        result = ["v", _from_db(pin, _basis_arg([pm.Perm(p) for p in op["basis"]], op.get("cont", "list")), op.get("via"))]
                     elif kind == "create_db":
                         pin.create_dfa_db_for_length(op["n"])
                         result = ["v", None]
@@ -997,6 +1046,8 @@ def _execute_concurrent(case):
 
     clear_memos()
     _use_real_make_dfa(bool(case.get("real_dfa")))
+    if case.get("real_dfa"):
+        histsim.restore_process_state(_STATE.get("pristine", []))
     sdesc = case["schedule"]
     if sdesc["mode"] == "segments":
         policy = threadsim.SegmentPolicy(sdesc["segments"])
